@@ -205,12 +205,14 @@ def step (st : DState) (line : String) : DState × String :=
     match decInfos infos with
     | none => (st, "unsupported")
     | some tis =>
+      -- the per-line hypothesis of SCP.VarInvariant (name in front of '=' admissible), in the state the line meets
+      let lok := if lineOKb st.cfg lang st.now st.vars tis then "\tLOK:1" else "\tLOK:0"
       let (vs', r) := evalInfos st.cfg lang st.now st.vars tis
       let st := { st with vars := vs' }
       match r with
       | none => (st, "none")
       | some (res, cinfos, raw) =>
-        let tail := "\t" ++ " ".intercalate (cinfos.map encInfo) ++ "\t" ++ " ".intercalate (raw.map encTok)
+        let tail := "\t" ++ " ".intercalate (cinfos.map encInfo) ++ "\t" ++ " ".intercalate (raw.map encTok) ++ lok
         match res with
         | .err _ => (st, "err" ++ tail)
         | .ok .none => (st, "ok\t-\t" ++ tail)
@@ -238,12 +240,14 @@ def step (st : DState) (line : String) : DState × String :=
     match lexText Gen.lexEnv st.cfg lang st.now (stringOfHex t).toList with
     | none => (st, "unsupported")
     | some tis =>
+      -- the per-line hypothesis of SCP.VarInvariant (name in front of '=' admissible), in the state the line meets
+      let lok := if lineOKb st.cfg lang st.now st.vars tis then "\tLOK:1" else "\tLOK:0"
       let (vs', r) := evalInfos st.cfg lang st.now st.vars tis
       let st := { st with vars := vs' }
       match r with
       | none => (st, "none")
       | some (res, cinfos, raw) =>
-        let tail := "\t" ++ " ".intercalate (cinfos.map encInfo) ++ "\t" ++ " ".intercalate (raw.map encTok)
+        let tail := "\t" ++ " ".intercalate (cinfos.map encInfo) ++ "\t" ++ " ".intercalate (raw.map encTok) ++ lok
         match res with
         | .err _ => (st, "err" ++ tail)
         | .ok .none => (st, "ok\t-\t" ++ tail)
